@@ -503,3 +503,99 @@ func (r *RuleCtx) SuccessOnlyFrom(granting CallPred) (msgs []string, nGrant int)
 	}
 	return msgs, nGrant
 }
+
+// CtxOf builds a rule context for an arbitrary function of the program.
+func (c *Check) CtxOf(fi *FuncInfo) *RuleCtx {
+	c.SawFunc(fi.Name())
+	return &RuleCtx{C: c, FI: fi, F: c.P.FlowOfFunc(fi), Info: fi.Info()}
+}
+
+// GateEdges supports the "extracted gate" idiom: `if err := gate(x); err != nil { return … }` where gate is a
+// function of the same package. world(g) gives, for a function g, the branch edges that are impossible in the
+// situation under consideration (e.g. "the level is below the requirement"). If – in that situation – gate has
+// no way to return nil (every reachable return is a surely non-nil error), the caller's edges on which the
+// assigned error is nil are impossible too; they are returned as edges to avoid in r.
+func (r *RuleCtx) GateEdges(world func(g *RuleCtx) func(b *cfgBlock, i int) bool) func(b *cfgBlock, i int) bool {
+	info := r.Info
+	gated := map[types.Object]bool{} // error variables that are surely non-nil after their (only) gate call
+	for _, pt := range r.F.Points() {
+		for _, call := range callsAt(pt.Node()) {
+			fn := callee(info, call)
+			if fn == nil || fn.Pkg() != r.FI.Obj.Pkg() || fn == r.FI.Obj {
+				continue
+			}
+			sig, _ := fn.Type().(*types.Signature)
+			if sig == nil || sig.Results().Len() != 1 || !isErrorType(sig.Results().At(0).Type()) {
+				continue
+			}
+			d := r.C.P.DeclOf(fn)
+			if d == nil || d.Decl.Body == nil {
+				continue
+			}
+			eo := errVarAssigned(info, pt.Node(), call)
+			if eo == nil {
+				continue
+			}
+			g := r.C.CtxOf(d)
+			w := world(g)
+			ginfo := g.Info
+			mayNil := func(q Pt) bool {
+				k, ret := g.F.Exit(q)
+				if k == ExitFallOff {
+					return true
+				}
+				if k != ExitReturn || ret == nil {
+					return false
+				}
+				if len(ret.Results) != 1 {
+					return true
+				}
+				switch x := ast.Unparen(ret.Results[0]).(type) {
+				case *ast.UnaryExpr:
+					return x.Op != token.AND
+				case *ast.CompositeLit:
+					return false
+				case *ast.CallExpr:
+					return !isCall(ginfo, x, "fmt.Errorf", "errors.New")
+				}
+				return true
+			}
+			if _, found := g.F.Reach(Query{From: g.Entry(), Inclusive: true, Target: mayNil, AvoidEdge: w}); !found {
+				if _, n := localDef(info, r.FI.Decl.Body, eo); n == 1 {
+					gated[eo] = true
+				}
+			}
+		}
+	}
+	if len(gated) == 0 {
+		return nil
+	}
+	return func(b *cfgBlock, i int) bool {
+		cond, isCase := r.F.Cond(b)
+		if cond == nil || isCase {
+			return false
+		}
+		for _, af := range atomsOnEdge(cond, i) {
+			for eo := range gated {
+				if ns, ok := nilTest(info, af.E, eo); ok {
+					// atom true ⇔ (ns==1 ? non-nil : nil); the edge claims nil if (ns==0) == af.T
+					if (ns == 0) == af.T {
+						return true
+					}
+				}
+			}
+		}
+		return false
+	}
+}
+
+func orEdge(fs ...func(b *cfgBlock, i int) bool) func(b *cfgBlock, i int) bool {
+	return func(b *cfgBlock, i int) bool {
+		for _, f := range fs {
+			if f != nil && f(b, i) {
+				return true
+			}
+		}
+		return false
+	}
+}
